@@ -104,6 +104,17 @@ func applyStep(st *C08Step, r rs, b *builder) (got rs, pieces []rs, err error) {
 		var sb redact.StringBuilder
 		sb.Print(r)
 		return sb.RedactableString(), []rs{r}, nil
+	case "SBSnapshot":
+		// a composition read from a builder that stays in use: it remains
+		// what it was (later steps reproduce it)
+		var sb redact.StringBuilder
+		sb.Print(r)
+		snap := sb.RedactableString()
+		sb.UnsafeString("later\n" + startS)
+		sb.Print(other)
+		sb.Reset()
+		sb.SafeString("0123456789012345678901234567890123456789")
+		return snap, []rs{r}, nil
 	case "SBPrintf":
 		var sb redact.StringBuilder
 		args[len(args)-1] = r
